@@ -230,8 +230,8 @@ func readAs(kind string, data []byte, c *c20Case) (store.Cursor, error) {
 }
 
 type cliExpect struct {
-	stdout    string // records prefixed with the path as the tool was told it
-	stdoutAlt string // records prefixed with the cleaned path (it names the same file)
+	stdout    string    // records prefixed with the path as the tool was told it
+	stdoutAlt string    // records prefixed with the cleaned path (it names the same file)
 	mRecords  []mRecord // for -m: the node behind every output line
 	diagnosed []string  // paths that must be named on stderr
 }
